@@ -61,7 +61,7 @@ def _bands(rng, H, W, dtype, names):
         a = out[nm].astype(dtype)
         if kind == 'f' and rng.random() < 0.4:
             a = gen.sprinkle(a, rng, 0.1, where='random').astype(dtype)
-        res[nm] = a
+        res[nm] = gen.rand_layout(a, rng)
     return res
 
 
